@@ -22,6 +22,10 @@ PT = {
                                '{ static constexpr auto origin() { return au::kelvins(-3); } };', u=Fr(5), o=Fr(-3)),
     'X3': dict(ty='VP_X3', inc='#include "au/units/kelvins.hh"\n//--\nstruct VP_X3 : decltype(au::Kelvins{} / au::mag<1000>()) '
                                '{ static constexpr auto origin() { return (au::kelvins / au::mag<1000>())(273150); } };', u=Fr(1, 1000), o=Fr(27315, 100)),
+    'X4': dict(ty='VP_X4', inc='#include "au/units/kelvins.hh"\n//--\nstruct VP_X4 : decltype(au::Kelvins{} * au::mag<2>()) '
+                               '{ static constexpr auto origin() { return au::kelvins(300); } };', u=Fr(2), o=Fr(300)),
+    'X5': dict(ty='VP_X5', inc='#include "au/units/kelvins.hh"\n//--\nstruct VP_X5 : decltype(au::Kelvins{} / au::mag<4>()) '
+                               '{ static constexpr auto origin() { return (au::kelvins / au::mag<4>())(1001); } };', u=Fr(1, 4), o=Fr(1001, 4)),
 }
 FINE = 9000   # every unit size and origin above is a multiple of 1/9000 K
 
